@@ -8,14 +8,82 @@ def repo_commits():
     return [l.split()[0] for l in out.splitlines() if "instrumentation hook" in l]
 
 CHECKS = {
+ "C01": dict(cat="exploration", design="§4 C01",
+   text="Random small networks with random preconditions are distilled by the real builder; the resulting tree is observed on hundreds of structured inputs per case (every cell of the tree, every full-dimensional activation cell of the reference network, points exactly on breakpoints, ties and precondition faces) by an independent exact-rational walk and compared with an independent exact forward pass of the textbook network. Held = no disagreement on the nets/inputs listed in the evidence.",
+   note="Trusted: refnet.rs (textbook forward pass), snap.rs (exact walk of raw nodes), q.rs. Float regimes compare at 1e-9 away from breakpoints; exact regimes are bit-exact. Thin preconditions are not asserted.",
+   tech="runtime monitoring: differential oracle (exact reference network) on structured inputs"),
+ "C02": dict(cat="exploration", design="§4 C02",
+   text="Random tree pairs (K=2 and K=4, total/partial, terminal-rooted, cached states) are composed by the real code; a complete structural audit recomputes every grafted node in exact rationals and an exact walk of f, g and h is compared on structured inputs incl. hyperplane points; g is snapshotted before/after.",
+   note="Trusted: snap.rs evaluator, common.rs exact update formulas. Float regimes skip inputs within rounding distance of a hyperplane.",
+   tech="runtime monitoring: complete graft-structure audit + exact evaluator oracle"),
+ "C03": dict(cat="exploration", design="§4 C03",
+   text="Trees with operation histories (cached feasibility states) are pruned by infeasible_elimination, by pruned composition and by the arithmetic operators; every removed node is audited with an exact emptiness classification (certified simplex), and the function is compared on the interior point of every thick cell and on probe inputs ending in thick cells.",
+   note="Trusted: lpx.rs (answers re-checked by the certificate verifier), snap.rs. Thin band |t*|<1e-4 is skipped, never asserted.",
+   tech="runtime monitoring: before/after exact evaluation + removed-node audit with LP certificates"),
+ "C04": dict(cat="exploration", design="§4 C04",
+   text="Random operation histories from all constructors run against the real library with a well-formedness walker, an exact step-wise functional model and panic/abort detection after every step, plus a usability battery at the end.",
+   note="Trusted: hist.rs type model and exact step model, snap.rs walkers. Aborts are attributed through write-ahead markers by the supervisor.",
+   tech="runtime monitoring: invariant walker + step-wise reference model over random histories, panic/abort detection"),
+ "C05": dict(cat="exploration", design="§4 C05",
+   text="Elimination-heavy histories are executed and after every step every cached witness is checked for exact membership in the exact path polytope of its node and every Infeasible mark for exact non-thickness; mirror_points is called directly on hostile polytopes and its results checked exactly.",
+   note="Trusted: snap.rs path polytopes, lpx.rs. A Feasible mark on an empty region is not counted as unsound.",
+   tech="runtime monitoring: cache-soundness invariant checked at every quiescent point of random histories"),
+ "C06": dict(cat="exploration", design="§4 C06",
+   text="Total trees with planted infeasible paths and cached states are pruned; every surviving path is classified exactly, single-branch decisions are scanned, a second run is diffed structurally, and for distilled nets the terminal count is bracketed by exact activation-region counts from the reference network.",
+   note="Trusted: lpx.rs, refnet.rs cell enumeration. Thin band skipped.",
+   tech="runtime monitoring: exact post-condition audit (emptiness, idempotence, region counts)"),
+ "C07": dict(cat="exploration", design="§4 C07",
+   text="Random tree/tree and tree/affine pairs are combined with all four operators in all ownership forms; per input the terminals reached in the operands determine the expected terminal bit-for-bit and the expected definedness (S5 thick-cell rule since the operators prune).",
+   note="Trusted: snap.rs evaluator. Divisors are generated non-zero.",
+   tech="runtime monitoring: per-input differential oracle recomputed from the operands"),
+ "C08": dict(cat="exploration", design="§4 C08",
+   text="Trees seeded with equal siblings at several levels and near-miss siblings are reduced; exact evaluation before/after with no tolerance, an independent reference reduce, idempotence and a leftover scan observe the result.",
+   note="Trusted: reference reduce in c08.rs, snap.rs evaluator.",
+   tech="runtime monitoring: reference implementation + exact evaluator oracle"),
+ "C09": dict(cat="exploration", design="§4 C09",
+   text="Random binary trees with scrambled arenas: the polyhedra() stream (with and without skips) is compared with exact path rows, find_terminal with the exact walk, routing vs reported regions in both directions, pairwise exact interior-disjointness of terminal regions and lattice cover for total trees.",
+   note="Trusted: snap.rs path rows, lpx.rs.",
+   tech="runtime monitoring: reference traversal + exact region/routing consistency oracle"),
+ "C10": dict(cat="exploration", design="§4 C10",
+   text="Generated LP instances of every special class, Chebyshev programs with rational data, and every LP the library solves while pruning (hook log) are refereed by an exact simplex whose answers are re-checked by an independent certificate verifier.",
+   note="Trusted: lpx.rs verifier (~60 lines of dot products and sign checks). Known finding K1 (minilp false 'unbounded') is recognised only when minilp called directly reports unbounded on the same LP.",
+   tech="runtime monitoring: exact LP oracle with certificates over generated and logged queries"),
+ "C11": dict(cat="fault_enumeration", design="§4 C11",
+   text="For each case the LP hook first counts the N calls of the fault-free run, then every single-fault plan (N positions x 4 fault kinds) plus random multi-fault and all-faulty plans are injected into infeasible_elimination, pruned composition and tree addition; each faulty run is checked for panics, function preservation on thick cells, cache soundness and well-formedness.",
+   note="Trusted: the hook in /repo/src/verif.rs (fault application), C03/C05 oracles. Faults model the failure modes the code anticipates; real HiGHS behaviour is not observable here.",
+   tech="runtime monitoring with fault injection: exhaustive single-fault enumeration per case at the LP hook"),
  "C12": dict(cat="exploration", design="§4 C12",
-   text="Random operation histories on the arena tree are executed against the real Tree<u32,K>; after every operation a reference model, an invariant walker and (after Err) a full before/after snapshot comparison observe the result. Held = no disagreement on the histories listed in the evidence; the quantifier (all sequences) is sampled, not exhausted.",
-   note="Trusted: the 150-line reference model and the walker in harness/src/props/treemodel.rs; slab's allocation order is not modelled (fresh index taken from the return value).",
+   text="Random operation histories on the arena tree are executed against the real Tree<u32,K>; after every operation a reference model, an invariant walker and (after Err) a full before/after snapshot comparison observe the result.",
+   note="Trusted: the reference model and walker in treemodel.rs; slab's allocation order is not modelled (fresh index taken from the return value).",
    tech="runtime monitoring: reference-model + invariant-walker oracle over random op histories"),
  "C13": dict(cat="exploration", design="§4 C13",
    text="Every traversal (DfsPre, DfsEdge, Bfs, PolyhedraIter) is run from every node of random trees with random and repeated skip_subtree calls and compared item by item with reference traversals; size_hint is checked after every call against the true number of remaining items; all metrics are recomputed directly.",
-   note="Trusted: reference traversals in harness/src/props/c13.rs; skip before the first item is not generated (property speaks of 'the last returned item').",
+   note="Trusted: reference traversals in c13.rs; skip before the first item is not generated.",
    tech="runtime monitoring: reference traversal oracle, size_hint bracket at every step"),
+ "C14": dict(cat="exploration", design="§4 C14",
+   text="Every polytope transformation and constructor is executed on random polytopes, maps (unimodular with exact inverse, signed permutations, 3-4-5 rotations) and dimensions; membership of lattice and exactly-on-boundary points in the result is compared with exact membership of the pre-image in the operands.",
+   note="Trusted: exact membership in c14.rs. Exact regime so that contains()' 1e-8 tolerance cannot blur verdicts.",
+   tech="runtime monitoring: exact semantic membership oracle"),
+ "C15": dict(cat="exploration", design="§4 C15",
+   text="Constraint systems rich in duplicates, scalings, zero rows and equality pairs go through every clean-up operation; results must be row subsequences and denote exactly the same set (two-way inclusion by certified simplex); survivors of the redundancy remover are tested for being implied by a margin.",
+   note="Trusted: lpx.rs. Known finding K1 explains rows kept because minilp reports unbounded.",
+   tech="runtime monitoring: exact set-equality oracle with LP certificates"),
+ "C16": dict(cat="exploration", design="§4 C16",
+   text="Every operator form, combinator, conversion and named constructor of AffFunc is executed on random functions in dims 1..5 and compared with its defining identity evaluated in exact rationals (bit-equality for coefficient-wise operators).",
+   note="Trusted: q.rs. Coefficients are normal floats as from_mats demands.",
+   tech="runtime monitoring: exact algebraic-identity oracle"),
+ "C17": dict(cat="exploration", design="§4 C17",
+   text="All schema generators over the parameter grid x dims x rows are evaluated on the complete breakpoint/tie product lattice (dims <= 4) and random points against textbook definitions; from_poly and from_slice+remove_axes are checked against exact membership / the embedded evaluation.",
+   note="Trusted: textbook definitions in c17.rs (PyTorch conventions).",
+   tech="runtime monitoring: textbook-definition oracle on breakpoint lattices"),
+ "C18": dict(cat="exploration", design="§4 C18",
+   text="Random Architecture call sequences (valid and invalid) are checked against a shape model, every accepted architecture is distilled under catch_unwind and compared with the reference network, every split point is composed and compared with the whole, and npz files written in the shipped dialect are read back and compared layer by layer.",
+   note="Trusted: shape model in c18.rs, refnet.rs, ndarray-npy's writer.",
+   tech="runtime monitoring: shape-model oracle + differential distillation + file round trip"),
+ "C19": dict(cat="exploration", design="§4 C19",
+   text="Random matrices under the whole FormatOptions product and random trees (Display, Dot) are rendered and the output is parsed back; every shown coefficient/index pair, bias, truth symbol, node and edge statement is compared with the stored object and every omission must be marked by an ellipsis.",
+   note="Trusted: the small parser in c19.rs. Shape/style attributes of DOT are not part of the property.",
+   tech="runtime monitoring: parse-back oracle on rendered output"),
 }
 ALL = ["C%02d" % i for i in range(1, 20)]
 NA_REASON = {}
